@@ -744,6 +744,13 @@ impl<K, S> Rodeo<K, S> {
         Strings::from_rodeo(self)
     }
 
+    /// Read-only view of the arena's layout
+    #[cfg(lasso_verif)]
+    #[doc(hidden)]
+    pub fn verif_audit(&self) -> crate::verif::ArenaAudit {
+        self.arena.verif_audit()
+    }
+
     /// Set the `Rodeo`'s maximum memory usage while in-flight
     ///
     /// Note that setting the maximum memory usage to below the currently allocated
